@@ -585,3 +585,31 @@ fn c04_encode_pdelay_resp_follow_up() { check_encode::<54>(T_PDELAY_RESP_FOLLOW_
 #[kani::proof]
 #[kani::unwind(14)]
 fn c04_encode_announce() { check_encode::<64>(T_ANNOUNCE) }
+
+// ================================================================================================
+// Enumeration <-> octet maps (C04 item 4): small domains, still decided by the solver.
+// ================================================================================================
+
+// @harness c04_enum_octet_maps
+// @props C04
+// @tier quick
+// @timeout 600
+// @functions TlvType::from_primitive, TlvType::to_primitive, ClockAccuracy::from_primitive, ClockAccuracy::to_primitive, TimeSource::from_primitive, TimeSource::to_primitive, ManagementAction::from_primitive, ManagementAction::to_primitive
+// @bounds all 2^16 TLV type values, all 2^8 clockAccuracy / timeSource / action octets
+#[kani::proof]
+#[kani::unwind(4)]
+fn c04_enum_octet_maps() {
+    use crate::datastructures::common::{ClockAccuracy, TimeSource, TlvType};
+    let t: u16 = kani::any();
+    assert!(TlvType::from_primitive(t).to_primitive() == t, "C04: tlvType does not survive decode/encode");
+    assert!(TlvType::from_primitive(t).announce_propagate() == ref_tlv_propagates(t), "C15: propagation class of the TLV type");
+    let a: u8 = kani::any();
+    let acc = ClockAccuracy::from_primitive(a).to_primitive();
+    assert!(if acc_reserved(a) { acc_reserved(acc) } else { acc == a }, "C04: clockAccuracy octet changed by decode/encode");
+    let s: u8 = kani::any();
+    assert!(TimeSource::from_primitive(s).to_primitive() == s, "C04: timeSource octet changed by decode/encode");
+    let m: u8 = kani::any();
+    let act = management::ManagementAction::from_primitive(m & 0x0f).to_primitive();
+    assert!(if (m & 0x0f) <= 4 { act == (m & 0x0f) } else { act >= 5 && act <= 15 }, "C04: management actionField");
+    kani::cover!(t == 0x4001 && a == 0x80 && s == 0xf5, "witness");
+}
